@@ -29,11 +29,11 @@ void h_lex_dfa(void)
 	s2 = spec_lex_step(s, in_byte);
 	CHECK("C03,C02", q2 >= 0 && q2 < CFGV_NQ, "the table walker stays inside the tables");
 	if (q2 >= 0 && q2 < CFGV_NQ) {
-		CHECK("C03,C15,C05,C06", cfgv_R[q2][s2], "closure: after any byte the scanner state and the reference state are related again");
+		CHECK("C03,C15,C05,C06,C01", cfgv_R[q2][s2], "closure: after any byte the scanner state and the reference state are related again");
 		r = yy_accept[q2]; f = spec_lex_accept(s2);
-		CHECK("C03,C15,C05,C06", f == F_NONE || (r >= 1 && r < CFGV_NRULES && cfgv_rf[r][f]), "accept: where the reference has a complete token the scanner accepts with a rule paired with that form");
-		CHECK("C03,C15,C05,C06", f != F_NONE || r == 0 || r == CFGV_NRULES, "accept: where the reference has no complete token no rule of the scanner accepts");
-		CHECK("C02", r != CFGV_NRULES, "no reachable scanner state lets the default rule (echo to standard output) win");
+		CHECK("C03,C15,C05,C06,C01", f == F_NONE || (r >= 1 && r < CFGV_NRULES && cfgv_rf[r][f]), "accept: where the reference has a complete token the scanner accepts with a rule paired with that form");
+		CHECK("C03,C15,C05,C06,C01", f != F_NONE || r == 0 || r == CFGV_NRULES, "accept: where the reference has no complete token no rule of the scanner accepts");
+		CHECK("C02,C01,C03,C05", r != CFGV_NRULES, "no reachable scanner state lets the default rule (echo to standard output) win");
 		CHECK("C03,C02", (q2 == CFGV_JAM) == (s2 == LS_DEAD), "jam: the scanner stops extending a token exactly when the reference cannot continue");
 		if (q == 1 || q == 3 || q == 5 || q == 7)
 			CHECK("C02", r != 0, "progress: every first byte is matched by some rule (the scanner always advances)");
